@@ -276,6 +276,21 @@ def run_unit(name, repo, workdir, rlimit=DEFAULT_RLIMIT, seed=0, vacuity=True):
             iid = spec.get('id') or weave._default_id(spec['path'])
             if iid in isolate:
                 out['bounded'][iid] = bounded.run(iid, spec, repo, os.path.join(workdir, name))
+    # functions outside the verifier's subset from the start (iterator pipelines over std): their contract is ASSUMED in the
+    # deductive part (`trusted`), and the harness is the only check of the real text; it runs on every check, in every tier
+    out['bounded_only'] = {}
+    for spec in unit.ITEMS:
+        if not spec or not spec.get('bounded_only'):
+            continue
+        from . import bounded
+        iid = spec.get('id') or weave._default_id(spec['path'])
+        present = any(x['id'] == iid for x in g.items)
+        if not present:
+            continue      # an optional helper this tree does not have: the obligations of its callers decide
+        bd = bounded.run(iid, spec, repo, os.path.join(workdir, name))
+        bd['labels'] = [e[0] for e in spec.get('ensures', [])]
+        bd['props'] = list(spec.get('bounded_props', spec.get('props', [])))
+        out['bounded_only'][iid] = bd
     return out
 
 
